@@ -745,8 +745,8 @@ func ruleEval(c *Ctx, mode string) *RuleResult {
 						}
 						// a zero slot of a pre-sized slice filled by index (make([]T, n);
 						// s[i] = v): that every slot is overwritten is index arithmetic, not decided
-						dp := strings.TrimSuffix(strings.TrimPrefix(string(hc.data.prov), "zero+"), "+zero")
-						if dp == "zero" {
+						dp := strings.TrimSuffix(strings.TrimPrefix(string(hc.data.prov), "zero?+"), "+zero?")
+						if dp == "zero?" {
 							continue
 						}
 						if dp != pj.elemOf {
